@@ -129,6 +129,94 @@ pub fn eq_fns(r: &mut Runner) {
     }
 }
 
+/// Aliased operands: both slices are windows of one buffer. Same start with
+/// different lengths, the empty slice at the end of one half against the other
+/// half, identical windows, and windows shifted by 1..=16 over periodic content
+/// (where the shifted windows may really be equal).
+pub fn eq_fns_aliased(r: &mut Runner) {
+    let maxlen = match r.tier {
+        Tier::Miri => 20usize,
+        Tier::Quick => 40,
+        Tier::Thorough => 72,
+    };
+    let mut buf: Vec<u8> = Vec::new();
+    let mut unit = 1000u64;
+    let miri = r.tier == Tier::Miri;
+    for content in 0..4usize {
+        if miri && content % 2 == 1 {
+            continue;
+        }
+        for blen in 0..=maxlen {
+            unit += 1;
+            if !r.mine(unit) {
+                continue;
+            }
+            buf.clear();
+            for i in 0..blen {
+                buf.push(match content {
+                    0 => (i as u8).wrapping_mul(37).wrapping_add(11),
+                    1 => b'a',
+                    2 => [b'a', b'b'][i % 2],
+                    _ => [b'x', b'y', b'z', b'x', b'y'][i % 5],
+                });
+            }
+            let places = [Place::GuardR, Place::GuardL, Place::Arena(0), Place::Arena(5), Place::Heap];
+            let hp = places[(blen + content) % places.len()];
+            let step = if miri { 7 } else { 1 };
+            let mut xo = 0;
+            while xo <= blen {
+                for xl in [0usize, 1, 2, 7, 8, 9, 16, 17, blen - xo] {
+                    if miri && ![0, 1, 8].contains(&xl) && xl != blen - xo {
+                        continue;
+                    }
+                    if xo + xl > blen {
+                        continue;
+                    }
+                    // y windows: same start with every other length class,
+                    // shifted starts, the split_at halves
+                    let mut ys: Vec<(usize, usize)> = Vec::new();
+                    for yl in [0usize, 1, xl.saturating_sub(1), xl, xl + 1, xl + 8, blen - xo] {
+                        if xo + yl <= blen {
+                            ys.push((xo, yl));
+                        }
+                    }
+                    for d in [1usize, 2, 5, 8, 16] {
+                        if miri && d != 1 && d != 8 {
+                            continue;
+                        }
+                        if xo + d + xl <= blen {
+                            ys.push((xo + d, xl));
+                        }
+                        if xo >= d {
+                            ys.push((xo - d, xl.min(blen - (xo - d))));
+                        }
+                    }
+                    ys.push((xo + xl, blen - xo - xl)); // right half after x
+                    ys.push((xo + xl, 0));
+                    for &(yo, yl) in &ys {
+                        for form in [4u8, 5, 6, 7] {
+                            r.run(
+                                Api::new(Fam::EqFn, Be::All, 0, false, form),
+                                &buf,
+                                &[],
+                                [yo as u64, yl as u64, xo as u64, xl as u64],
+                                &[],
+                                hp,
+                                Place::Heap,
+                                xl != yl || xl > 0,
+                            );
+                        }
+                    }
+                }
+                xo += step;
+            }
+            if r.stop() {
+                return;
+            }
+        }
+    }
+}
+
 /// Needle shapes for pair selection.
 fn pair_needles(len: usize, r: &mut Runner, out: &mut Vec<Vec<u8>>, full: bool) {
     out.clear();
